@@ -2,7 +2,7 @@
 
 SPEC = {
     "level": "exploration",
-    "stages": [{"name": "main", "harness": "C14_matches.cpp", "config": "san",
+    "stages": [{"name": "main", "harness": "C14_matches.cpp", "config": "san", "gen": True,
                 "deadline": {"quick": 600, "thorough": 2700}}],
     "technique": "deviation-bounded exhaustive input enumeration on the real matchers under ASan+UBSan, independently built mirror as oracle",
     "rule": ("FUNCTIONAL: requests over 30 stacks = {EthernetII, EthernetII/Dot1Q, bare} x {IPv4: TCP, UDP+payload, ICMP echo, ICMP timestamp, "
@@ -28,6 +28,15 @@ SPEC = {
              "extension headers, ARP/DHCP/DHCPv6/NA replies) truncated or zero-padded to that length, and that buffer with each byte in a "
              "16-byte (thorough: 24-byte) window after every layer start replaced by each of 35 boundary values (thorough: all 255)}; "
              "oracle: no ASan/UBSan report, no SIGSEGV/SIGBUS (caught per call), only libtins exceptions, allocation ledger unchanged. "
+             "MINIMAL MIRRORS: 127 paths = every stack over roots {bare, EthernetII, EthernetII/Dot1Q, Dot1Q, Loopback} x {IPv4: TCP, UDP, ICMP echo / "
+             "timestamp / address-mask, UDP/DNS (request with / without question), UDP/BootP (236 and 300 bytes), UDP/DHCP (answered by a 236-byte "
+             "BOOTP reply and by a minimal DHCP message); IPv6: TCP, UDP, ICMPv6 echo, UDP/DNS, UDP/DHCPv6} with every layer in minimal form, "
+             "every non-empty prefix of each (truncated stacks: link only, link/network only, .../UDP with a header-only reply), EthernetII/ARP, "
+             "Dot3, RadioTap, and every matcher class called directly on a bare object; reply = exactly the sum of the RFC minimal header sizes "
+             "(padding stripped, self-checked), the same + 1 trailing byte (00 and ff), and as serialized under padding roots: all must be "
+             "accepted; every proper prefix of every minimal reply: safety oracle only. OBLIGATION from the generated class table (classes.inc x "
+             "compile-time test of which class declares matches_response): every concrete class with an own matcher must be the last reply "
+             "layer of at least one case with 0 and with 1 byte behind it (else harness:minimal-mirror-missing). "
              "CALL HISTORY: the first thing every job (process) does: the base request of every (stack, header variant) (90 probes; positive + 6 "
              "values per matched byte, also on fields without an expectation) in ascending network-header-size order starting at a job-specific "
              "probe, then in the opposite order, then the first probe again: every verdict must satisfy the oracle and the verdict vector of a "
@@ -42,6 +51,8 @@ SPEC = {
              "Bound: value sets above, <= 2 (quick) / 3 (thorough) deviating groups, buffers <= 128 bytes, one substituted byte; call histories: "
              "the orders described (hidden state that needs a longer or different history to show is not reached)."),
     "assumptions": ["a request is serialized (sent) before replies are matched against it",
+                    "a UDP request is matchable only with a payload (documented libtins behaviour); its reply may be header-only",
+                    "a reply cut short inside its last header is judged for memory safety only (the statement does not say it must be rejected)",
                     "a reply to a request with IPv4 options / IPv6 extension headers carries options / headers of the same total length",
                     "the verdict is a function of (request, reply bytes) only: it may not depend on earlier calls in the process",
                     "matched fields are those named by the statement: link/network addresses, ports, ICMP reply type/id/sequence, DNS id, VLAN id",
